@@ -119,13 +119,31 @@ Print Assumptions C18_stop_order.
 Theorem C18_state_saved_once :
   forall o, exists z s before after,
       run_command o = (Val z, s) /\
-      saves_of (events s) = (if o_restore o && core_started o then 1 else 0) /\
-      (o_restore o && core_started o = true ->
+      saves_of (events s) = (if o_restore o && core_running o then 1 else 0) /\
+      (o_restore o && core_running o = true ->
        events s = before ++ ESave :: after /\
        stops_of before = frontends_alive o /\ saves_of before = 0 /\
        after = map EStop ([CCore] ++ backends_alive o ++ audio_alive o ++ mixer_alive o)).
 Proof. exact state_saved_once_lemma. Qed.
 Print Assumptions C18_state_saved_once.
+
+(* T5 at full strength (the state is saved exactly once iff enabled and a core actor is running
+   at shutdown), for the fixed stop_core; the code before the fix violated it when the
+   interrupt arrived while run() was still waiting for Core._setup. *)
+Theorem C18_state_saved_iff_core_running : saved_iff_core_running run_command.
+Proof. exact new_code_saved_iff_core_running_lemma. Qed.
+Print Assumptions C18_state_saved_iff_core_running.
+
+Theorem C18_old_stop_core_refuted : ~ saved_iff_core_running run_command_old.
+Proof. exact old_code_refuted_lemma. Qed.
+Print Assumptions C18_old_stop_core_refuted.
+
+Theorem C18_old_stop_core_loses_state :
+  o_restore late_core_oracle = true /\ core_running late_core_oracle = true /\
+  In CCore (stops_of (events (snd (run_command_old late_core_oracle)))) /\
+  saves_of (events (snd (run_command_old late_core_oracle))) = 0.
+Proof. exact old_code_loses_state_lemma. Qed.
+Print Assumptions C18_old_stop_core_loses_state.
 
 (* T6: run returns an exit status (0 or 1, given in closed form) with an empty registry. *)
 Theorem C18_clean_exit :
